@@ -9,8 +9,8 @@
     identifiers, first layer in [glyphs] and nobody else, distinct layer directories and glif file
     names.  [font_equiv] is the equality of the property: everything but the creator, numbers /
     colours under the part equalities, feature text up to line endings, stores byte-identical. *)
-Require Import Norad.Model.Base Norad.Model.FontRT Norad.Model.FontToy
-               Norad.Proofs.FontRTP Norad.Proofs.FontToyP.
+Require Import Norad.Model.Base Norad.Model.FontRT Norad.Model.FontToy Norad.Model.FontNum
+               Norad.Proofs.FontRTP Norad.Proofs.FontToyP Norad.Proofs.FontNumP.
 Open Scope N_scope.
 
 Theorem C01_roundtrip : forall (S : sig), sig_ok S -> forall o (f : font S),
@@ -75,6 +75,19 @@ Theorem C01_save_refuses : forall (S : sig) o (f : font S),
   (m_version (f_meta S f) <> 3 -> save S o f = Err SDowngrade) /\
   (m_version (f_meta S f) = 3 -> d_get S OBJ (f_lib S f) <> None -> save S o f = Err SPreexistingObjectLibs).
 Proof. exact save_refuses. Qed.
+
+(** Numbers: the three integer-or-float writers replace [v] by an integer [t] only when
+    |v - t| <= 2^-52.  The written value is within the property's tolerance (1e-9 relative) exactly
+    outside the class "a non-zero number written as 0"; the class is inhabited (2^-60), so the full
+    statement "every number survives within 1e-9" is refuted for the writers as they are. *)
+Theorem C01_written_integer_within_tolerance_iff : forall (v : Q) (t : Z),
+  written_as_integer v t -> (within v (inject_Z t) <-> ~ KnownClass_flush_to_zero v t).
+Proof. exact written_within_iff. Qed.
+Definition C01_numbers_full : Prop := forall (v : Q) (t : Z), written_as_integer v t -> within v (inject_Z t).
+Theorem C01_refuted_flush_to_zero : ~ C01_numbers_full.
+Proof.
+  intros H. destruct flush_to_zero_witness as [H1 H2]. apply H2. apply H. exact H1.
+Qed.
 
 (** Non-vacuity: the laws have a model; the example font is valid and its saved tree is exactly
     these files; the empty font is valid and saves three files. *)
